@@ -36,7 +36,7 @@ fn kind_label(k: TKind) -> &'static str {
     }
 }
 
-const N_INJECTORS: usize = 35;
+const N_INJECTORS: usize = 36;
 
 pub fn inject(rng: &mut Rng, base: &TsDoc) -> Option<Fault> {
     for _ in 0..40 {
@@ -514,6 +514,18 @@ pub fn inject_one(rng: &mut Rng, base: &TsDoc, which: usize) -> Option<Fault> {
             let at = rng.below(doc.defs.len() + 1);
             doc.defs.insert(at, TsDef::Type(e));
             done!("TS9", format!("{label}|extension-of-built-in-scalar"));
+        }
+        // ---------------- TS2: a built-in scalar declared again (nitrogql declares the five itself, after the user's
+        // documents: the user's declaration is the first of two)
+        35 => {
+            let b = rng.s(crate::schema_ix::BUILTIN_SCALARS).to_string();
+            let mut e = TypeDef::new(TKind::Scalar, &b);
+            if rng.coin() {
+                e.dirs.push(Dir::new("specifiedBy", vec![("url", Val::str("https://example.com/spec"))]));
+            }
+            let at = rng.below(doc.defs.len() + 1);
+            doc.defs.insert(at, TsDef::Type(e));
+            done!("TS2", format!("duplicate-type|built-in-scalar-declared-again|{b}"));
         }
         // ---------------- TS10 recursive directive definitions
         _ => {
